@@ -336,6 +336,18 @@ class C16(Engine):
         file's reference result (same oracle as for a single file)."""
         vs = []
         v = sc["vec"]
+        if o.get("end") == "internal":
+            # the invocation ended in a traceback. If every file of it is answered (verdict or fatal line) when checked
+            # alone under the reference vector, a presentation option has taken the findings of the whole run away
+            alone_ok = True
+            for n, f in self.all_files(sc):
+                rr = refs[self.ref_key(n, f)]
+                if rr.get("killed") or rr["ops"][0].get("end") not in ("exit", "returned"):
+                    alone_ok = False
+            if alone_ok:
+                vs.append(Violation(self.prop, "C16.c-options-never-end-the-run", f"{o.get('exc')} under {self.vec_kind(v)}: every file of the run is answered alone under the reference options",
+                                    {"argv": short_argv(sc["ops"][0]["argv"]), "exc": o.get("excmsg")}))
+            return vs
         if o.get("end") != "exit" or not o.get("reports"):
             return vs
         rep = o["reports"][0]
